@@ -29,6 +29,8 @@ pub struct SideCfg {
     /// close() after writing everything
     pub closes: bool,
     pub stream_seed: u64,
+    /// the application does not read during the first 30 s (the whole receive buffer fills up)
+    pub late_reader: bool,
 }
 
 #[derive(Clone, Debug)]
@@ -102,6 +104,7 @@ pub fn gen_side(src: &mut Src, v6: bool, ethernet: bool) -> SideCfg {
         total,
         closes: true,
         stream_seed: src.u64(),
+        late_reader: false,
     }
 }
 
@@ -241,7 +244,7 @@ impl World {
             received: 0,
             close_called: false,
             finished_seen: false,
-            paused_until: 0,
+            paused_until: if cfg.sides[i].late_reader { 30_000_000 } else { 0 },
             total: cfg.sides[i].total,
             closes: cfg.sides[i].closes,
             stream_seed: cfg.sides[i].stream_seed,
@@ -286,6 +289,11 @@ impl World {
             events: 0,
             check_deadline_invariant: false,
         };
+        for i in 0..2 {
+            if w.cfg.sides[i].late_reader {
+                w.push(30_000_000, EvKind::AppWake(i));
+            }
+        }
         // B listens, A connects
         w.sock(1).listen(80).expect("listen");
         {
@@ -808,8 +816,29 @@ pub enum End {
 pub fn gen_world(src: &mut Src, faults_always: bool) -> WorldCfg {
     let v6 = src.chance(1, 4);
     let ethernet = src.chance(1, 5);
-    let a = gen_side(src, v6, ethernet);
-    let b = gen_side(src, v6, ethernet);
+    let mut a = gen_side(src, v6, ethernet);
+    let mut b = gen_side(src, v6, ethernet);
+    // "stream ends at the receiver's buffer edge" mode (no new draws - bits of a drawn seed - so
+    // that saved tapes keep their meaning): with window scaling (buffer > 64 KiB) the advertised
+    // right edge is rounded down to the scaling granularity; a stream that ends within the last
+    // octets of a buffer nobody reads from, sent in segments that do not align with that
+    // granularity, puts the FIN on a segment clipped at the window edge
+    for (x, y) in [(0usize, 1usize), (1, 0)] {
+        let (snd, rcv) = if x == 0 { (&mut a, &mut b) } else { (&mut b, &mut a) };
+        let _ = y;
+        let bits = snd.stream_seed >> 24;
+        if bits & 7 == 0 && rcv.rx_buf > 65_535 {
+            snd.total = rcv.rx_buf - ((bits >> 3) % 4) as usize;
+            snd.closes = true;
+            if snd.mtu % 2 == 0 {
+                snd.mtu -= 1;
+            }
+            if snd.tx_buf < 4096 {
+                snd.tx_buf = 65_536;
+            }
+            rcv.late_reader = true;
+        }
+    }
     WorldCfg {
         v6,
         ethernet,
